@@ -1,10 +1,12 @@
 /-
   Line-protocol driver: one operation per input line, one canonical result line per
   operation.  Floats cross the boundary as IEEE-754 bit patterns (decimal UInt64).
+  Sections of a line are separated by `|`, tokens by blanks.
   Imports model files only (no Mathlib), so it links as a native executable.
 -/
 import Tdgl.Scalar
 import Tdgl.Step
+import Tdgl.Operators
 
 open Tdgl
 
@@ -16,10 +18,21 @@ def f (s : String) : Float :=
   | none => Float.ofBits 0x7ff8000000000000
 
 def b (x : Float) : String := toString x.toBits.toNat
-
 def nat (s : String) : Nat := s.toNat?.getD 0
-
 def cx (re im : String) : Cx Float := ⟨f re, f im⟩
+def toks (s : String) : List String := (s.splitOn " ").filter (· ≠ "")
+def floats (s : String) : Array Float := ((toks s).map f).toArray
+def nats (s : String) : Array Nat := ((toks s).map nat).toArray
+def fn (a : Array Float) : Nat → Float := fun i => a.getD i 0
+def nfn (a : Array Nat) : Nat → Nat := fun i => a.getD i 0
+/-- interleaved (re, im) array as a complex index function -/
+def cfn (a : Array Float) : Nat → Cx Float := fun i => ⟨a.getD (2*i) 0, a.getD (2*i+1) 0⟩
+def outF (n : Nat) (g : Nat → Float) : String := " ".intercalate ((List.range n).map (fun i => b (g i)))
+def outC (n : Nat) (g : Nat → Cx Float) : String :=
+  " ".intercalate ((List.range n).map (fun i => b (g i).re ++ " " ++ b (g i).im))
+
+structure St where
+  mesh : FVMesh Float := ⟨0, 0, fun _ => 0, fun _ => 0, fun _ => 0, fun _ => 0, fun _ => 0, 0, fun _ => 0⟩
 
 def c02 : List String → String
   | [pr, pi, a, mu, eps, g, u, dt, lr, li] =>
@@ -28,20 +41,40 @@ def c02 : List String → String
     | some (p, x) => s!"some {b p.re} {b p.im} {b x}"
   | _ => "bad-op"
 
-def step (line : String) : String :=
-  match (line.trimAscii.toString.splitOn " ").filter (· ≠ "") with
-  | "C02" :: rest => c02 rest
-  | _ => "bad-op"
+def step (st : St) (line : String) : St × String :=
+  let secs := (line.trimAscii.toString.splitOn "|").map (fun s => s.trimAscii.toString)
+  match secs with
+  | [] => (st, "bad-op")
+  | hd :: rest =>
+    let m := st.mesh
+    match toks hd, rest with
+    | "C02" :: args, [] => (st, c02 args)
+    | ["mesh", n, e, nb], [e0, e1, len, dual, area, bidx] =>
+      let mesh : FVMesh Float :=
+        ⟨nat n, nat e, nfn (nats e0), nfn (nats e1), fn (floats len), fn (floats dual), fn (floats area),
+          nat nb, nfn (nats bidx)⟩
+      ({ st with mesh := mesh }, "ok")
+    | ["div"], [F] => (st, outF m.n (divRow m (fn (floats F))))
+    | ["grad"], [g] => (st, outF m.E (gradEdge m (fn (floats g))))
+    | ["lap"], [g] => (st, outF m.n (lapRow m (fn (floats g))))
+    | ["neu"], [mb] => (st, outF m.n (neuRow m (fn (floats mb))))
+    | ["cgrad"], [th, psi] => (st, outC m.E (cgradEdge m (linkOf (fn (floats th))) (cfn (floats psi))))
+    | ["clap"], [fx, th, psi] =>
+      let fixed := nats fx
+      (st, outC m.n (clapRow m (fun r => fixed.getD r 0 == 1) (linkOf (fn (floats th))) (cfn (floats psi))))
+    | ["js"], [th, psi] => (st, outF m.E (superEdge m (linkOf (fn (floats th))) (cfn (floats psi))))
+    | _, _ => (st, "bad-op")
 
 end Drv
 
-partial def loop (h : IO.FS.Stream) (out : IO.FS.Stream) : IO Unit := do
+partial def loop (h : IO.FS.Stream) (out : IO.FS.Stream) (st : Drv.St) : IO Unit := do
   let line ← h.getLine
   if line.isEmpty then return ()
-  out.putStrLn (Drv.step line)
-  loop h out
+  let (st', r) := Drv.step st line
+  out.putStrLn r
+  loop h out st'
 
 def main : IO Unit := do
   let stdin ← IO.getStdin
   let stdout ← IO.getStdout
-  loop stdin stdout
+  loop stdin stdout {}
